@@ -59,9 +59,13 @@ def build(reg):
     reg.external("sha1.digest", ext_sha1_digest)
     models.CLASS_MODELS["hashlib.sha1"] = m_sha1
     models.EXTERNAL_CLASSES.add("hashlib.sha1")
-    reg.external("base64.b64encode", lambda ex, state, args, kwargs, sv: VBytes(b64_f(args[0].t)))
-    reg.native_spec("accept_digest", lambda ex, state, key: VStr(natives.latin1_decode(
-        b64_f(sha1_f(z3.Concat(key.t, z3.StringVal("") if False else _magic()))))))
+    def ext_b64encode(ex, state, args, kwargs, sv):
+        r = b64_f(args[0].t)
+        state.assume(natives.utf8_valid(r))         # base64 text is ASCII
+        return VBytes(r)
+    reg.external("base64.b64encode", ext_b64encode)
+    reg.native_spec("accept_digest", lambda ex, state, key: VStr(natives.utf8_decode(
+        b64_f(sha1_f(z3.Concat(key.t, _magic()))))))
 
     def bump(field):
         def f(ex, state, args, kwargs, sv):
@@ -87,7 +91,9 @@ def build(reg):
         "websocket_protocol_in_use": "opt:str", "openHandshakeTimeoutCall": "opt:obj:HsTimer", "autoPingInterval": "real",
         "autoPingPendingCall": "any", "peer": "any", "inside_message": "bool", "current_frame": "any",
         "trackedTimings": "any", "is_open": "any", "wasNotCleanReason": "opt:str"},
-        methods={"dropConnection": "hs.drop"})
+        methods={"dropConnection": "hs.drop", "_onConnect": "noop", "_onOpen": "noop", "consumeData": "noop",
+                 "_fail_connection": "noop", "_sendAutoPing": "noop"})
+    reg.external("noop", lambda ex, state, args, kwargs, sv: VNone)
     KEYS = ["upgrade", "connection", "sec-websocket-accept", "sec-websocket-protocol", "sec-websocket-extensions"]
     reg.contract(P + ":parseHttpHeader", params={"data": "bytes"}, returns="tuple:str,dict:str->str,dict:str->int",
                  ensures=["('%s' in result[1]) == ('%s' in result[2]) and implies('%s' in result[2], result[2]['%s'] >= 1)"
@@ -120,7 +126,7 @@ def build(reg):
             "implies(self.state == 3, ghost.n_onconnect == old(ghost.n_onconnect) + 1 and "
             "self.openHandshakeTimeoutCall is None)"],
         loops={"target:c": {"index": "_i", "invariant": ["not connectionUpgrade"], "modifies": [], "pure_calls": True}},
-        **common)
+        inline_calls=[CLI + ".failHandshake"], **common)
 
 
 def _magic():
@@ -129,3 +135,83 @@ def _magic():
 
 def extra_checks(tier, seed):
     return []
+
+
+# ------------------------------------------------------------------------------------------ replay on the real code
+_HARNESS = r'''
+import json, base64, hashlib
+import txaio; txaio.use_asyncio()
+from autobahn.websocket import protocol as P
+from autobahn.wamp.types import TransportDetails
+
+class T:
+    def __init__(self): self.w = []; self.aborted = False; self.closed = False
+    def write(self, d): self.w.append(bytes(d))
+    def abort(self): self.aborted = True
+    def close(self): self.closed = True
+    def get_extra_info(self, *a, **k): return None
+
+def client():
+    f = P.WebSocketClientFactory("ws://localhost:9000/x", protocols=["p1", "p2"])
+    f.log = txaio.make_logger()
+    class C(P.WebSocketClientProtocol):
+        def _onConnect(self, response): return None
+        def _onOpen(self): pass
+        def _onClose(self, *a): pass
+        def unregisterProducer(self): pass
+        def _closeConnection(self, abort=False):
+            if abort: self.transport.abort()
+            else: self.transport.close()
+    p = C(); p.log = txaio.make_logger()
+    p.factory = f; p.transport = T(); p._transport_details = TransportDetails()
+    p._connectionMade()
+    p.websocket_key = base64.b64encode(b"0123456789abcdef")
+    p.state = p.STATE_CONNECTING
+    return p
+
+def accept(key):
+    return base64.b64encode(hashlib.sha1(key + b"258EAFA5-E914-47DA-95CA-C5AB0DC85B11").digest()).decode()
+
+GOOD = ("HTTP/1.1 101 Switching Protocols\r\nUpgrade: websocket\r\nConnection: Upgrade\r\n"
+        "Sec-WebSocket-Accept: %s\r\n%s\r\n")
+cases = []
+k = base64.b64encode(b"0123456789abcdef")
+cases.append(("valid", (GOOD % (accept(k), "")).encode(), True))
+cases.append(("valid+subprotocol", (GOOD % (accept(k), "Sec-WebSocket-Protocol: p2\r\n")).encode(), True))
+cases.append(("unrequested subprotocol", (GOOD % (accept(k), "Sec-WebSocket-Protocol: zz\r\n")).encode(), False))
+cases.append(("wrong digest", (GOOD % (accept(b"x" * 24), "")).encode(), False))
+cases.append(("status 200", (GOOD % (accept(k), "")).replace("101", "200").encode(), False))
+cases.append(("no upgrade header", (GOOD % (accept(k), "")).replace("Upgrade: websocket\r\n", "").encode(), False))
+cases.append(("non-UTF-8 octets", b"HTTP/1.1 101 \xff\xfe\r\nUpgrade: websocket\r\n\r\n", False))
+cases.append(("non-UTF-8 header value", (GOOD % (accept(k), "X-Note: caf\xe9\r\n")).encode("latin-1"), True))
+cases.append(("garbage", b"\x00\x01\x02\r\n\r\n", False))
+cases.append(("bad status code", b"HTTP/1.1 abc OK\r\n\r\n", False))
+bad = []
+for name, data, should_open in cases:
+    for cut in sorted({len(data), 1, len(data) // 2, len(data) - 1}):
+        p = client()
+        try:
+            p.data = data[:cut]; p.processHandshake()
+            if cut < len(data):
+                p.data += data[cut:]; p.processHandshake()
+        except Exception as e:
+            bad.append({"case": name, "cut": cut, "escaped": "%s: %s" % (type(e).__name__, e)}); break
+        opened = p.state == p.STATE_OPEN
+        if opened != should_open:
+            bad.append({"case": name, "cut": cut, "opened": opened, "expected": should_open}); break
+        if not opened and not (p.transport.aborted or p.transport.closed):
+            bad.append({"case": name, "cut": cut, "problem": "rejected but the connection was not dropped"}); break
+print(json.dumps({"bad": bad}))
+'''
+
+
+def replay(o):
+    from pyvc import replaylib as Rp
+    unit = o.get("unit") or o.get("name", "")
+    if "WebSocketClientProtocol.processHandshake" not in unit:
+        return {"reproduced": False, "detail": "no replay harness for this unit"}
+    out = Rp.run_py(_HARNESS, timeout=120)
+    hits = out.get("bad") if isinstance(out, dict) else None
+    return {"reproduced": bool(hits), "cases": (hits or [])[:3], "observed": None if hits else out,
+            "detail": "handshake responses (valid, each single defect, undecodable octets), each under several read "
+                      "boundaries, against the real client protocol (finds real failing inputs only; proves nothing)"}
